@@ -528,8 +528,8 @@ pub fn zero_weight_entries(ctx: &mut Ctx) {
 pub fn weight_types(ctx: &mut Ctx) {
     for c in 0..ctx.n(12, 120) {
         let mut rng = ctx.rng.fork();
-        let m = [2usize, 4, 16, 64][c as usize % 4];
-        let n = [1usize, 3, 9, 40][(c as usize / 4) % 4];
+        let m = *rng.pick(&[2usize, 4, 16, 64]);
+        let n = *rng.pick(&[1usize, 3, 9, 40]);
         let ids = gen_ids(&mut rng, n);
         ctx.begin_case(&format!("pmh weight types m={} n={}", m, n));
         ctx.mark_nontrivial();
